@@ -1,19 +1,28 @@
 # C17 — FUSE manager: persistent record vs live mounts across re-init / restart
 PROPS["C17"] = dict(
     props_file="Properties/C17.v",
-    harnesses=[dict(cmd="fusemgr", mod="root", model="Model.Fusemgr", quick=300, thorough=12000, shard=75,
+    harnesses=[dict(cmd="fusemgr", mod="root", model="Model.Fusemgr", quick=250, thorough=12000, shard=64,
                     require=["op.init", "op.mount", "op.check", "op.unmount", "op.close", "op.restart",
                              "in.init.json", "in.init.cfgfunc", "in.init.fs", "in.init.run", "in.reinit",
                              "in.init-after-restart-with-history", "in.init-script-failure", "in.request-before-init",
                              "in.mount-failure", "in.check-failure", "in.unmount-failure",
-                             "in.kernel-mounted-mountpoint", "in.close-twice"])],
+                             "in.kernel-mounted-mountpoint", "in.close-twice"]),
+               dict(cmd="fusemgrsub", mod="root", model="Model.FusemgrSub", quick=100, thorough=5000, shard=34,
+                    require=["in.bmount", "in.bcheck", "in.bunmount", "in.adv", "in.init", "in.close", "in.restart"])],
     rule="corpus of 7 hand-written histories + random histories (4..18 ops) of Init(cfg, failing stage | restore script) / Mount / Check / Unmount "
          "(each with the outcome of its backend call) / Close / manager restart over 6 mountpoints (one of them listed by the kernel mount table "
          "without being ours), 4 label sets, 4 configurations; non-trivial = >= 3 op kinds and at least one of: re-Init with live mounts, "
-         "Init after a restart with a populated store, failing restore; distinct = distinct (ops, observations)",
+         "Init after a restart with a populated store, failing restore; distinct = distinct (ops, observations). "
+         "fusemgrsub: 4 hand-written schedules (two Mounts of one mountpoint begun together; Mount during an Unmount; crashes between "
+         "sub-steps; independent mountpoints interleaved) + random sub-step schedules: concurrent Mount/Check/Unmount goroutines stopped at "
+         "every sub-step boundary (filesystem call, fsMap update, fusestore write), crashes between sub-steps, occasional overlapping requests "
+         "for one mountpoint (which must wait for the per-mountpoint mutex); non-trivial = >= 2 requests in flight, or a crash between "
+         "sub-steps, or a request waiting for the mutex",
     assumptions=[
-        "RPCs are atomic (Init/Close hold fm.lock exclusively, Mount/Check/Unmount shared); histories are sequences of whole RPCs; "
-        "concurrent Mount/Unmount of the same mountpoint under the shared lock are outside the model",
+        "sequential model: RPCs are atomic (histories are sequences of whole RPCs). Sub-step model: Init/Close hold fm.lock exclusively (atomic, "
+        "only when no request is in flight), Mount/Check/Unmount hold it shared and are decomposed into gate+fsMap.Load / filesystem call / "
+        "fsMap update / fusestore write, interleaved arbitrarily, with the per-mountpoint mutex of fix 2; sync.Map operations and bolt "
+        "transactions are atomic; Go-level data races are outside the model",
         "snapshot.FileSystem contract: a successful Mount/Unmount takes effect, a failed one changes nothing (recording instances in the harness)",
         "bbolt: a committed Update is durable and atomic, ForEach iterates in key order, Update/View on a closed handle return an error; "
         "a crash of the manager is therefore a Restart placed before or after an RPC (each RPC commits at most one transaction, as its last effect)",
@@ -24,8 +33,8 @@ PROPS["C17"] = dict(
                "(invariant by induction over fold_left step): store = live mounts + records the last Init left unrestored (and that Init reported it); "
                "owners of existing mounts survive re-Init, nothing is mounted twice, new mounts use the filesystem of the new configuration; "
                "restart + Init re-mounts every record (a prefix in store order when a restore fails) with its recorded labels; unknown unmount succeeds; "
-               "requests before Init fail; no nil dereference after fix C17-fix-1 (and a witness that the code as found has one). The model is run against the real fusemanager.Server (real bbolt store) on random histories every run.",
-    level_note="Model (coq/Model/Fusemgr.v) is hand-written; the filesystems behind the manager are recording fakes substituted through the verif hook "
+               "requests before Init fail; no nil dereference after fix C17-fix-1 (and a witness that the code as found has one). The model is run against the real fusemanager.Server (real bbolt store) on random histories every run. Sub-step machine (concurrent requests, crashes between sub-steps, per-mountpoint mutex of fix C17-fix-2): store = live for every mountpoint no request in flight is working on, never mounted twice at every point, crash anywhere + Init re-mounts the kept store; witnesses that the code without the mutex mounts twice / leaves a stale record; run against the real server with goroutines gated at every sub-step.",
+    level_note="Models (coq/Model/Fusemgr.v sequential, coq/Model/FusemgrSub.v sub-step/concurrent) are hand-written; the filesystems behind the manager are recording fakes substituted through the verif hook "
                "after the real service.NewFileSystem has run; gRPC transport, the client and process management (signals, sockets) are not exercised.",
     technique="Coq proof: invariant preserved by every op, lifted to all reachable states; correspondence by vm_compute on observed histories",
     trusted=["fusemanager.Server is modelled by hand in coq/Model/Fusemgr.v; tie = per-op result class, backend calls (instance, kind, mountpoint, labels), "
